@@ -213,6 +213,9 @@ def inputs_for(v, prop, tier, tag):
         for k, c in ((129, True), (1000, True), (100000, True), (200000, False), (1000000, True)):
             items.append({"tag": f"nest-{k}", "nest": k, "complete": c})
         items.append({"tag": "rst-before-accept", "special": "rst-backlog", "stream": []})
+        # the handler task of the hostile connection panics (three times: a slot lost per panic shows at once)
+        for n in range(3):
+            items.append({"tag": f"handler-panic-{n}", "special": "handler-panic", "stream": B(b"*1\r\n$4\r\nPING\r\n")})
         items.append({"tag": "rst-before-accept-2", "special": "rst-backlog", "stream": B(b"*1\r\n")})
         # floods: one unit repeated up to 1 MiB (4 MiB in the thorough tier)
         total = (1 << 20) if q else (1 << 22)
@@ -223,7 +226,7 @@ def inputs_for(v, prop, tier, tag):
             items.append({"tag": "flood-" + name, "repeat": {"unit": B(unit), "count": total // len(unit)}})
         rnd.shuffle(items)
     elif prop == "C15":
-        endings = ["close", "half-frame", "half-frame-open", "malformed", "garbage", "panic", "store-error", "rst-in-backlog",
+        endings = ["close", "half-frame", "half-frame-open", "malformed", "garbage", "panic", "handler-panic", "store-error", "rst-in-backlog",
                    "accept-error", "rejected-plus-half", "half-frame-utf8", "garbage-binary"]
         for mx in (1, 2, 3):
             for e in endings:
